@@ -1,4 +1,5 @@
 import GateryModel.C01.Spec
+import GateryModel.Nodes.Seq
 import Driver.NodesCommon
 /-!
 Driver for C01: checks the relation `F` between the reference trace and (a) the trace after every post-processing pass
@@ -18,6 +19,8 @@ structure Case where
   netTag : String := ""                                  -- netlist being read / last read
   nets : List (String × Array (NetNode × String)) := []  -- tag ↦ nodes (with kind name)
   curNet : Array (NetNode × String) := #[]
+  prevVals : List (String × Nat × Array (Option BV4)) := []   -- tag ↦ (cycle, values seen by consumers at that cycle)
+  resets : List (String × Nat × Bool) := []                 -- (tag, cycle) ↦ reset asserted at the sample point
 
 structure Stats where
   cases : Nat := 0
@@ -35,6 +38,10 @@ structure Stats where
   netSkips : Nat := 0
   nodeEvals : Nat := 0           -- node values recomputed with the Lean node semantics and compared with the simulator
   netCycles : Nat := 0
+  regEvals : Nat := 0            -- register transitions recomputed with `regEdge` and compared with the simulator
+  regSkips : Nat := 0            -- transitions not checked because the reset changed between the two sample points
+  regResetEvals : Nat := 0       -- … of which taken in reset
+  regEnableEvals : Nat := 0      -- … of which with a connected enable
   kindHist : List (String × Nat) := []
   hist : List (String × Nat) := []
 
@@ -79,7 +86,7 @@ def finish (c : Case) (st : Stats) : IO Stats := do
 
 /-- re-evaluate every node of a dumped netlist with `Gatery.Nodes.evalNode` on the implementation's values of its inputs
     (pins and register outputs are taken from the implementation); returns the indices where the implementation differs -/
-def recheck (nodes : Array (NetNode × String)) (impl : Array (Option BV4)) : List (Nat × String × String) × Nat := Id.run do
+def recheck (nodes : Array (NetNode × String)) (impl : Array (Option BV4)) : List (Nat × String × String) × Nat × Array (Option BV4) := Id.run do
   let mut bad : List (Nat × String × String) := []
   let mut evals := 0
   -- values seen by consumers: the implementation's value where it has one; signal nodes own no simulator state
@@ -101,7 +108,28 @@ def recheck (nodes : Array (NetNode × String)) (impl : Array (Option BV4)) : Li
         match model with
         | some m => if m != v then bad := (i, BV4.toString m, BV4.toString v) :: bad
         | none => if name != "sig" then bad := (i, "none", BV4.toString v) :: bad
-  return (bad.reverse, evals)
+  return (bad.reverse, evals, vals)
+
+/-- re-evaluate every register transition between two consecutive sample points with `Gatery.Nodes.regEdge`:
+    the register value at this sample point must be the model's clock edge applied to the data / reset value / enable
+    values and the register value of the previous sample point -/
+def recheckRegs (nodes : Array (NetNode × String)) (prev : Array (Option BV4)) (impl : Array (Option BV4)) (inReset : Bool) :
+    List (Nat × String × String) × Nat × Nat := Id.run do
+  let mut bad : List (Nat × String × String) := []
+  let mut evals := 0
+  let mut withEn := 0
+  for i in [0:nodes.size] do
+    let (n, name) := nodes[i]!
+    if name != "reg" then continue
+    match prev.getD i none, impl.getD i none with
+    | some old, some now =>
+      let port := fun (k : Nat) => look prev.toList ((n.ins.getD k none))
+      evals := evals + 1
+      if (n.ins.getD 2 none).isSome then withEn := withEn + 1
+      let m := regEdge n.w (port 0) (port 1) (port 2) inReset old
+      if m != now then bad := (i, BV4.toString m, BV4.toString now) :: bad
+    | _, _ => pure ()
+  return (bad.reverse, evals, withEn)
 
 partial def loop (h : IO.FS.Stream) (c : Case) (st : Stats) : IO Stats := do
   let line ← h.getLine
@@ -137,7 +165,7 @@ partial def loop (h : IO.FS.Stream) (c : Case) (st : Stats) : IO Stats := do
     | none => loop h c st
     | some (_, nodes) =>
       let impl : Array (Option BV4) := (vals.map fun s => if s == "?" then none else some (BV4.ofString s)).toArray
-      let (bad, evals) := recheck nodes impl
+      let (bad, evals, vals) := recheck nodes impl
       let mut st := { st with nodeEvals := st.nodeEvals + evals, netCycles := st.netCycles + 1 }
       match bad with
       | [] => pure ()
@@ -145,7 +173,29 @@ partial def loop (h : IO.FS.Stream) (c : Case) (st : Stats) : IO Stats := do
         let kind := (nodes[i]?.map (·.2)).getD "?"
         IO.println s!"DIFF case={c.id} what=backbone net={tag} cycle={cyc} node={i} kind={kind} model={m} impl={v} (and {bad.length - 1} more)"
         st := { st with diffs := st.diffs + 1 }
+      -- register transitions from the previous sample point
+      let cycN := cyc.toNat!
+      let rst := fun (k : Nat) => (c.resets.find? fun (t, n, _) => t == tag && n == k).map (·.2.2)
+      match c.prevVals.find? (·.1 == tag) with
+      | some (_, pc, pv) =>
+        if pc + 1 == cycN then
+          match rst pc, rst cycN with
+          | some r0, some r1 =>
+            if r0 == r1 then
+              let (rbad, revals, withEn) := recheckRegs nodes pv impl r0
+              st := { st with regEvals := st.regEvals + revals, regEnableEvals := st.regEnableEvals + withEn,
+                              regResetEvals := st.regResetEvals + (if r0 then revals else 0) }
+              match rbad with
+              | [] => pure ()
+              | (i, m, v) :: _ =>
+                IO.println s!"DIFF case={c.id} what=register-transition net={tag} cycle={cyc} node={i} inreset={r0} model={m} impl={v} (and {rbad.length - 1} more)"
+                st := { st with diffs := st.diffs + 1 }
+            else st := { st with regSkips := st.regSkips + 1 }
+          | _, _ => pure ()
+      | none => pure ()
+      let c := { c with prevVals := (tag, cycN, vals) :: c.prevVals.filter (·.1 != tag) }
       loop h c st
+  | ["nr", tag, cyc, r] => loop h { c with resets := (tag, cyc.toNat!, r == "1") :: c.resets } st
   | ["end"] =>
     let st ← finish c st
     loop h {} st
@@ -154,4 +204,4 @@ partial def loop (h : IO.FS.Stream) (c : Case) (st : Stats) : IO Stats := do
 def main : IO Unit := do
   let st ← loop (← IO.getStdin) {} {}
   let hist := ",".intercalate (st.hist.map fun (k, n) => s!"\"{k}\":{n}")
-  IO.println s!"SUMMARY \{\"cases\":{st.cases},\"ops\":{st.ops},\"diffs\":{st.diffs},\"propfails\":{st.propfails},\"fully_defined_reference_runs\":{st.adefCases},\"postprocess_threw\":{st.ppfail},\"pass_boundaries\":{st.boundaries},\"boundaries_not_simulatable\":{st.nosim},\"boundaries_with_changed_trace\":{st.changedBoundaries},\"cycles\":{st.cycles},\"netlists_rechecked\":{st.nets},\"netlists_skipped\":{st.netSkips},\"node_values_rechecked_with_lean_semantics\":{st.nodeEvals},\"hist\":\{{hist}}}"
+  IO.println s!"SUMMARY \{\"cases\":{st.cases},\"ops\":{st.ops},\"diffs\":{st.diffs},\"propfails\":{st.propfails},\"fully_defined_reference_runs\":{st.adefCases},\"postprocess_threw\":{st.ppfail},\"pass_boundaries\":{st.boundaries},\"boundaries_not_simulatable\":{st.nosim},\"boundaries_with_changed_trace\":{st.changedBoundaries},\"cycles\":{st.cycles},\"netlists_rechecked\":{st.nets},\"netlists_skipped\":{st.netSkips},\"node_values_rechecked_with_lean_semantics\":{st.nodeEvals},\"register_transitions_rechecked_with_lean_semantics\":{st.regEvals},\"register_transitions_in_reset\":{st.regResetEvals},\"register_transitions_with_enable\":{st.regEnableEvals},\"register_transitions_skipped_reset_changing\":{st.regSkips},\"hist\":\{{hist}}}"
